@@ -427,8 +427,19 @@ def table_job(arg):
     d = common.scratch_dir("c15t")
     path = os.path.join(d, "runs.scm")
     common.write_file(path, runs_text(api, eqname, n0, items))
+    import resource
+    ru0 = resource.getrusage(resource.RUSAGE_CHILDREN)
     res = common.evalbatch(variant, [path], timeout=3000, cwd=d, env=table_env(variant, poison))
     lines, collide, extra = parse_table_output(res.out)
+    retried = False
+    if len(lines) != len(items) or res.rc != 0 or extra:
+        # run the batch once more before believing it (other work on this machine rebuilds build/<variant> now and then)
+        retried = True
+        first_tail = res.out[-600:]
+        res = common.evalbatch(variant, [path], timeout=3000, cwd=d, env=table_env(variant, poison))
+        lines, collide, extra = parse_table_output(res.out)
+    ru1 = resource.getrusage(resource.RUSAGE_CHILDREN)
+    cpu = (ru1.ru_utime - ru0.ru_utime) + (ru1.ru_stime - ru0.ru_stime)
     mism = []
     outcomes = {}
     n = min(len(lines), len(items))
@@ -457,20 +468,33 @@ def table_job(arg):
         for lab, a, b in bad[:8]:
             mism.append((i, pl, ml, lab, a, b, rot, full))
     crash = None
+    cm = (collide or "0").split(" ")[0]
+    if not cm.isdigit() or int(cm) < 46:
+        extra.append("harness: no pair of keys sharing a bucket at 23 and 46 buckets was found (%r)" % collide)
     if len(lines) != len(items) or res.rc != 0 or extra:
         at = items[n] if n < len(items) else None
         crash = dict(rc=res.rc, got=len(lines), want=len(items), asan=res.asan(), tail=res.out[-1800:], extra=extra[:5],
                      timed_out=res.timed_out,
                      at=([(c[1], c[2]) for c in at[1]], (at[2][1], at[2][2]) if at[2] else None, at[4], at[3]) if at else None)
     shutil.rmtree(d, ignore_errors=True)
-    return dict(api=api, eq=eqname, n0=n0, chunk=chunk, runs=len(items), executed=n, tokens=ntok, mism=mism,
+    sample = None
+    if items:
+        i, prefix, m, full, rot = items[len(items) // 2]
+        sample = "%s table, SRFI %s, %d pre-filled: %s" % (eqname, api, n0, " ; ".join(
+            "%s K%d" % (OPNAME_SCHEME.get(c[1], c[1]), c[2]) for c in list(prefix) + ([m] if m else [])) or "(reads only)")
+    return dict(api=api, eq=eqname, n0=n0, chunk=chunk, runs=len(items), executed=n, tokens=ntok, mism=mism, sample=sample,
                 nmism=len(mism), outcomes=outcomes, crash=crash, stats=stats, collide=collide,
-                wall=time.time() - t0, variant=variant)
+                wall=time.time() - t0, variant=variant, cpu=cpu, retried=retried)
 
 
 KEYS_OF_OP = {"set2": (0, 1), "del2": (0, 2), "updz": (4,), "merge": (1, 5), "union": (1, 5), "inter": (1, 5), "diff": (1, 5),
               "xor": (1, 5), "eqother": (1, 5), "ecopy": (0, 1)}
 PER_KEY = {name for ops in ALPHABET.values() for (name, _, perkey, _) in ops if perkey}
+
+
+def opstr(op):
+    name, j = op
+    return "%s K%d" % (name, j) if name in PER_KEY else name
 
 
 def keys_touched(op):
@@ -721,7 +745,8 @@ def flo_routes(x):
     r = [("literal", t, True), ("string->number", "(string->number %s)" % sstr(t), False),
          ("reader", "(read (open-input-string %s))" % sstr(t), False),
          ("times2-half", "(/ (* %s 2.0) 2.0)" % t, False)]
-    if x == x and abs(x) != math.inf and not (x == 0 and math.copysign(1, x) < 0):
+    if x == x and abs(x) != math.inf and not (x == 0 and math.copysign(1, x) < 0) and Fraction(x).denominator <= 2 ** 53:
+        # (larger denominators: (inexact 1/2^1074) gives 0.0, a conversion matter outside this property)
         fr = Fraction(x)
         r.append(("inexact-of-exact", "(inexact %s)" % (str(fr.numerator) if fr.denominator == 1 else "%d/%d" % (fr.numerator, fr.denominator)), False))
     if x == 0 and math.copysign(1, x) < 0:
@@ -1094,11 +1119,25 @@ def coherence_job(arg):
 PRED_NAMES = ["equal?-native", "equal?-base", "eqv?"]
 
 
-def analyse_coherence(chk, insts, rows, hashes, agg):
+def contains_bignum(v):
+    if v[0] == "i":
+        return not (-2 ** 62 <= v[1] < 2 ** 62)
+    if v[0] == "q":
+        return contains_bignum(("i", v[1])) or contains_bignum(("i", v[2]))
+    if v[0] in ("p", "c"):
+        return contains_bignum(v[1]) or contains_bignum(v[2])
+    if v[0] == "v":
+        return any(contains_bignum(x) for x in v[1])
+    if v[0] == "r":
+        return any(contains_bignum(x) for x in v[2])
+    return False
+
+
+def analyse_coherence(chk, insts, rows, hashes, agg, complete=True):
     """rows: idx -> [native, base, eqv, ci]; agg(desc, what, replay) collects grouped violations"""
     n = len(insts)
     missing = [i for i in range(n) if i not in rows]
-    if missing:
+    if missing and complete:
         agg(dict(op="coherence-missing-rows", count=len(missing)), "no result rows for instances %s..." % missing[:5], None)
     exp_fns = [exp_equal, exp_equal, exp_eqv]
 
@@ -1192,7 +1231,8 @@ def analyse_coherence(chk, insts, rows, hashes, agg):
                 chk.evaluations += 1
                 chk.outcomes["hash:" + ("same" if hi[0] == hj[0] else "DIFFERENT")] += 1
                 if hi[0] != hj[0] or hi[2] != hj[2]:
-                    agg(dict(op="hash", kind=a.kind, route_a=a.route, route_b=b.route, got="different", want="same"),
+                    agg(dict(op="hash", kind=a.kind, route_a=a.route, route_b=b.route, got="different", want="same",
+                             contains_bignum=contains_bignum(a.val)),
                         "equal? values hash differently: (hash a)=%s (hash b)=%s, a=%s [route %s], b [route %s]" % (
                             hi[0], hj[0], datum_or_rec(a.val), a.route, b.route),
                         COH_PRELUDE + "(define a %s)\n(define b %s)\n(write (list (equal? a b) (native-equal? a b) (hash a) (hash b) (hash a 23) (hash b 23)))\n;; expected: #t #t and equal hashes\n" % (a.expr, b.expr))
@@ -1412,10 +1452,10 @@ def table_depth(tier, api, n0):
     if tier == "quick":
         if api == "69":
             return 4 if n0 <= 2 else (3 if small else 2)
-        return 3 if small else 2
+        return 3 if n0 <= 8 else (2 if small else 1)
     if api == "69":
         return 5 if n0 <= 2 else (4 if small else 3)
-    return 4 if small else (3 if n0 <= 62 else 2)
+    return 4 if n0 <= 8 else (3 if n0 <= 62 else 2)
 
 
 def run_cost_ms(api, eqname, n0):
@@ -1451,6 +1491,28 @@ def run_any(job):
     raise ValueError(kind)
 
 
+def reap_workers(pids):
+    """after Pool.terminate(): the evalbatch children of killed workers keep running; stop them and remove their scratch"""
+    import signal
+    marks = ["-%d-" % p for p in pids]
+    for ent in os.listdir("/proc"):
+        if not ent.isdigit():
+            continue
+        try:
+            cmd = open("/proc/%s/cmdline" % ent, "rb").read().decode("utf-8", "replace")
+        except OSError:
+            continue
+        if "/build/scratch/c15" in cmd and any(m in cmd for m in marks):
+            try:
+                os.kill(int(ent), signal.SIGKILL)
+            except OSError:
+                pass
+    if os.path.isdir(common.SCRATCH_ROOT):
+        for f in os.listdir(common.SCRATCH_ROOT):
+            if f.startswith("c15") and any(m in f + "-" or m in f for m in marks):
+                shutil.rmtree(os.path.join(common.SCRATCH_ROOT, f), ignore_errors=True)
+
+
 def standalone(text, variant="opt", env=None, timeout=120):
     d = common.scratch_dir("c15r")
     path = os.path.join(d, "replay.scm")
@@ -1461,7 +1523,7 @@ def standalone(text, variant="opt", env=None, timeout=120):
 
 
 def main(tier, replay=None):
-    chk = Check("C15", "model_checking", tier, quick_s=160, thorough_s=1230)
+    chk = Check("C15", "model_checking", tier, quick_s=135, thorough_s=1140)
     chk.clean_replays()
     chk.max_reported = 60
     for v in ("opt", "asan"):
@@ -1476,7 +1538,7 @@ def main(tier, replay=None):
     est = {}
     for api in ("69", "125"):
         for eqname in EQUIVS:
-            for L in (2, 3, 4, 5):
+            for L in (1, 2, 3, 4, 5):
                 if any(table_depth(tier, api, n) == L for n in n0s):
                     runs, st = explore(api, eqname, 3, L)
                     est[(api, eqname, L)] = len(runs)
@@ -1520,7 +1582,7 @@ def main(tier, replay=None):
     rows, hashes = {}, {}
     tstats = {}            # (api, eq, n0) -> stats
     table_runs = table_exec = 0
-    table_mism = {}        # key -> group
+    cpu_by, runs_by, retried_jobs = {}, {}, []
     collide_mods = set()
     crashes = []
     done = 0
@@ -1529,6 +1591,7 @@ def main(tier, replay=None):
     hashcyc = []
     harness_errors = []
     with Pool(common.NCPU) as pool:
+        worker_pids = [w.pid for w in pool._pool]
         for kind, r in pool.imap_unordered(run_any, work):
             done += 1
             if kind == "error":
@@ -1539,20 +1602,28 @@ def main(tier, replay=None):
                 tstats[key] = r["stats"]
                 table_runs += r["runs"]
                 table_exec += r["executed"]
+                ck = "srfi-%s %s" % (r["api"], "n0<=31" if r["n0"] <= FULL_DUMP_N0 else "n0>31")
+                cpu_by[ck] = cpu_by.get(ck, 0.0) + r["cpu"]
+                runs_by[ck] = runs_by.get(ck, 0) + r["executed"]
+                if r["retried"]:
+                    retried_jobs.append((r["api"], r["eq"], r["n0"], bool(r["crash"])))
                 chk.evaluations += r["tokens"]
                 for k, c in r["outcomes"].items():
                     chk.outcomes["table:" + k.split(":")[0] + (":E" if k.endswith(":E") else "")] += c
                 if r["collide"]:
                     collide_mods.add(r["collide"].split(" ")[0])
+                if r["sample"] and r["chunk"] == 0 and r["n0"] in (2, 16, 491):
+                    chk.sample(r["sample"], cap=9)
                 for (i, pl, ml, lab, got, want, rot, full) in r["mism"]:
                     cause = attribute(r["api"], r["eq"], r["n0"], pl, ml, lab, got, want)
-                    gk = (cause, r["api"], r["eq"]) if cause != "unexplained" else (cause, r["api"], r["eq"], lab[0])
+                    gk = (cause, r["api"]) if cause != "unexplained" else (cause, r["api"], r["eq"], lab[0])
                     g = agg.add(gk, None, None, None, weight=len(pl) * 1000 + r["n0"])
                     if g["desc"] is None or g["weight"] == len(pl) * 1000 + r["n0"] and g["desc"].get("_w") != g["weight"]:
                         g["desc"] = dict(op="table:" + cause, api="srfi-" + r["api"], equivalence=r["eq"], n0=r["n0"],
-                                         history=["%s K%d" % x for x in pl + ([ml] if ml else [])], at="%s K%d" % lab,
+                                         history=[opstr(x) for x in pl + ([ml] if ml else [])], at=opstr(lab),
                                          got=got, want=want, _w=g["weight"], _rp=(r["api"], r["eq"], r["n0"], pl, ml, rot, full))
                     g["extra"].setdefault("at", set()).add(lab[0])
+                    g["extra"].setdefault("equivalences", set()).add(r["eq"])
                     g["extra"].setdefault("n0", set()).add(r["n0"])
                 if r["crash"]:
                     crashes.append(r)
@@ -1576,6 +1647,7 @@ def main(tier, replay=None):
                 hashcyc.append(r)
             if chk.out_of_time():
                 pool.terminate()
+                reap_workers(worker_pids)
                 log("deadline reached after %d/%d jobs" % (done, len(work)))
                 break
     for e in harness_errors:
@@ -1588,11 +1660,9 @@ def main(tier, replay=None):
         g = agg.add(key, desc, what, replay, weight=w)
         if "route_a" in desc:
             g["extra"].setdefault("routes", set()).add((desc.get("route_a"), desc.get("route_b")))
-    if not chk.exhaustive and len(rows) < len(insts):
+    if len(rows) < len(insts):
         log("coherence matrix incomplete (%d of %d rows): analysing the completed rows only" % (len(rows), len(insts)))
-        sub = {i: rows[i] for i in rows}
-        analyse_partial = True
-    analyse_coherence(chk, insts, rows, hashes, agg_a) if len(rows) == len(insts) else None
+    analyse_coherence(chk, insts, rows, hashes, agg_a, complete=chk.exhaustive or os.environ.get("C15_PARTS") == "a")
     chk.cov["coherence_instances"] = len(insts)
     chk.cov["coherence_abstract_values"] = len(set(x.val for x in insts))
     chk.cov["coherence_routes"] = sorted(set(x.route for x in insts))
@@ -1630,7 +1700,7 @@ def main(tier, replay=None):
         at = c["at"]
         fr = c["asan"][1][:4] if c["asan"] else None
         desc = dict(op="table:crash" if not c["asan"] else "table:asan-" + c["asan"][0], api="srfi-" + r["api"], equivalence=r["eq"], n0=r["n0"],
-                    rc=c["rc"], frames=fr, timed_out=c["timed_out"], history=["%s K%d" % x for x in (at[0] + ([at[1]] if at[1] else []))] if at else None)
+                    rc=c["rc"], frames=fr, timed_out=c["timed_out"], history=[opstr(x) for x in (at[0] + ([at[1]] if at[1] else []))] if at else None)
         rp = None
         if at:
             rp = replay_program(r["api"], r["eq"], r["n0"], at[0], at[1], at[2], at[3])
@@ -1681,6 +1751,10 @@ def main(tier, replay=None):
     chk.cov["alphabet_sizes"] = {api: dict(zip(("all", "mutators", "reads"), map(len, op_codes(api)))) for api in ALPHABET}
     chk.cov["history_depth"] = {api: sorted(set(table_depth(tier, api, n) for n in n0s)) for api in ALPHABET}
     chk.cov["bucket_collision_modulus"] = sorted(collide_mods)
+    chk.cov["table_cpu_seconds"] = {k: round(v, 1) for k, v in cpu_by.items()}
+    chk.cov["table_histories_by_class"] = runs_by
+    chk.cov["table_batches_rerun"] = len(retried_jobs)
+    log("table cpu by class:", chk.cov["table_cpu_seconds"], runs_by, "reruns:", retried_jobs[:5])
     chk.cov["jobs_completed"] = done
     chk.cov["jobs_total"] = len(work)
     chk.cov["variants"] = {"tables": "asan + VERIF_POISON=1", "coherence": "opt"}
@@ -1708,10 +1782,10 @@ def main(tier, replay=None):
         "hash-table-update! with a size-reading thunk is explored as a final operation only",
         "default comparator of SRFI 128 (numbers compared with =) is not among the five equivalences",
     ]
-    for name, expr, g in fam[:3]:
-        chk.sample("cyclic: " + name)
-    for x in insts[1:400:57]:
-        chk.sample("%s via %s: %s" % (datum_or_rec(x.val), x.route, x.expr[:100]))
+    for name, expr, g in fam[:1]:
+        chk.sample("cyclic: " + name + " = " + expr, cap=14)
+    for x in insts[1:400:100]:
+        chk.sample("%s via %s: %s" % (datum_or_rec(x.val), x.route, x.expr[:100]), cap=14)
     common.cleanup_scratch()
     return chk.finish()
 
@@ -1776,3 +1850,23 @@ def analyse_depth(chk, r, agg):
         if hsh != "t":
             agg.add(("depth", "hash", shape), dict(op="hash", kind="deep-" + shape, depth=int(n), got=hsh, want="t"),
                     "equal? deep structures hash differently (%s nesting %s)" % (shape, n), DEPTH_TEXT + "(all %s)\n" % n)
+
+
+def replay(path):
+    """./check C15 --replay replay/C15/<file>.scm : run one recorded case alone and show observed vs expected"""
+    text = open(path).read()
+    variant = "asan" if "(define (run-one r)" in text else "opt"
+    build.build_variant(variant)
+    res = standalone(text, variant, env=table_env(variant, variant == "asan"), timeout=300)
+    body = res.out.split(";;STATS")[0].rstrip()
+    print(body)
+    for l in text.split("\n"):
+        if l.startswith(";; expected") or l.startswith(";; a =") or l.startswith(";; C15(b)") or l.startswith(";; tokens"):
+            print(l)
+    exp = [l[len(";; expected: "):].strip() for l in text.split("\n") if l.startswith(";; expected: ")]
+    if variant == "asan" and exp:
+        lines, _, extra = parse_table_output(res.out)
+        ok = bool(lines) and lines[0].rstrip() == exp[0] and not extra and res.rc == 0
+        print("REPLAY %s" % ("agrees with the model" if ok else "VIOLATION reproduced"))
+        return 0 if ok else 1
+    return 0 if res.rc == 0 else 1
